@@ -135,6 +135,11 @@ def same_result(r1, r2, rtol=0.0, atol=0.0):
     if isinstance(r1, (tuple, list)) and isinstance(r2, (tuple, list)):
         return len(r1) == len(r2) and all(same_result(x, y, rtol, atol)
                                           for x, y in zip(r1, r2))
+    if isinstance(r1, dict) and isinstance(r2, dict):
+        return set(r1) == set(r2) and all(same_result(r1[k], r2[k], rtol, atol)
+                                          for k in r1)
+    if type(r1).__name__ == "Grid" and type(r2).__name__ == "Grid":
+        return same_result(np.asarray(r1.data), np.asarray(r2.data), rtol, atol)
     try:
         import pandas as pd
         if isinstance(r1, (pd.Series, pd.DataFrame)):
@@ -256,6 +261,43 @@ class Ctx:
                        lambda: {"presentation": kind, "argument": which,
                                 "result": jsonable(truncate(jsonable(r))),
                                 "base": jsonable(truncate(jsonable(base)))})
+
+    def reuse(self, label, fn, arrays, base, case, rtol=1e-14, atol=0.0):
+        """Three calls with the *same* argument objects, as a caller's loop does: the
+        arguments are still what they were; the first result, kept by the caller, is
+        not overwritten by the second call; and after the caller has edited the
+        results it was given, the third call still returns the first answer."""
+        from hyverif.monitors.purity import scramble
+        import copy as _copy
+        args = [np.ascontiguousarray(np.array(a, copy=True)) if isinstance(a, np.ndarray)
+                else _copy.deepcopy(a) for a in arrays]
+        orig = [_copy.deepcopy(a) for a in args]
+        self.tag("reuse:" + label)
+        self.api(label, 3)
+        try:
+            r1 = fn(*args)
+            keep = _copy.deepcopy(r1)
+            r2 = fn(*args)
+            ok_kept = same_result(r1, keep)
+            scramble(r1)
+            scramble(r2)
+            r3 = fn(*args)
+        except Exception as e:
+            self.check("reuse.runs", False, f"{label}|raises-on-repeated-call", case,
+                       {"exc": repr(e)[:300]})
+            return
+        self.check("reuse.arguments-kept",
+                   all(same_result(a, o) for a, o in zip(args, orig)
+                       if isinstance(a, np.ndarray)),
+                   f"{label}|argument-changed-by-repeated-calls", case, None)
+        self.check("reuse.earlier-result-kept", ok_kept,
+                   f"{label}|earlier-result-overwritten-by-later-call", case, None)
+        self.check("reuse.same-answer", same_result(keep, base, rtol, atol) and
+                   same_result(r3, base, rtol, atol),
+                   f"{label}|repeated-call-on-same-arguments-differs", case,
+                   lambda: {"first": jsonable(truncate(jsonable(keep))),
+                            "third": jsonable(truncate(jsonable(r3))),
+                            "fresh": jsonable(truncate(jsonable(base)))})
 
     def risky(self, case):
         """synchronously record the case about to be executed (used before calls
